@@ -87,3 +87,47 @@ def _fixture(name):
     with open(path) as fh:
         tree = ast.parse(fh.read())
     return [n for n in ast.walk(tree) if isinstance(n, ast.FunctionDef)]
+
+
+# ---------------------------------------------------------------------------
+# N2  log-volumes are computed in log space
+# ---------------------------------------------------------------------------
+
+def linear_space_logs(fn_node):
+    """np.log(np.prod(..)) / np.log(np.linalg.det(..)) / np.log(<product of diagonal>) :
+    the argument under- or overflows for narrow or high-dimensional ellipsoids although the
+    logarithm itself is perfectly representable."""
+    out = []
+    for n in walk_no_nested(fn_node):
+        if isinstance(n, ast.Call) and dotted(n.func) in ('np.log', 'math.log', 'np.log2',
+                                                          'np.log10') and n.args:
+            for sub in ast.walk(n.args[0]):
+                if isinstance(sub, ast.Call) and dotted(sub.func) in (
+                        'np.prod', 'np.product', 'np.linalg.det', 'np.multiply.reduce',
+                        'math.prod', 'np.cumprod'):
+                    out.append((n, dotted(sub.func)))
+                if isinstance(sub, ast.BinOp) and isinstance(sub.op, ast.Pow) and \
+                        isinstance(sub.right, (ast.Name, ast.Attribute)) and \
+                        'dim' in unparse(sub.right) and sub is n.args[0]:
+                    pass      # log(x ** n_dim) is harmless for the values used here
+    return out
+
+
+def rule_N2(ctx, rid='N2'):
+    ctx.rule(rid, 'log-volumes stay in log space: no volume getter takes the logarithm of a '
+             'product or determinant computed in linear space (which under/overflows for '
+             'narrow or high-dimensional ellipsoids while the log-volume is representable)')
+    n = 0
+    for f in ctx.program.functions.values():
+        if f.name != 'log_v' and 'volume' not in f.name and f.name != 'n_eff' and \
+                f.name != 'log_z':
+            continue
+        n += 1
+        bad = linear_space_logs(f.node)
+        ctx.ob(rid, '%s:log-space' % f.qualname, not bad, f.where(bad[0][0]) if bad else
+               f.where(), 'computed from log-determinants / logsumexp' if not bad else
+               '`%s` takes the logarithm of %s evaluated in linear space: -inf or inexact for '
+               'small volumes although contains() is unaffected' % (
+                   unparse(bad[0][0])[:60], bad[0][1]))
+    ctx.require(n >= 5, 'N2 found only %d volume getters' % n)
+    return n
